@@ -68,7 +68,8 @@ def stream(ctx, grammars, sr, maxlen, hashseed, same_object=False):
         ctx.dist(f"{sr}:grammars")
     # same_object: all transformations are applied, in a random order, to ONE grammar object (caches, memo tables and
     # name counters are shared between them) instead of to a fresh copy each
-    res = TR.run_transforms(grammars, sr, strs, ctx.rng, hashseed=hashseed, fresh=not same_object, shuffle=same_object)
+    res = TR.run_transforms(grammars, sr, strs, ctx.rng, hashseed=hashseed, fresh=not same_object, shuffle=same_object,
+                            extra=(lambda g: TR.chains(g, ctx.rng)))
     if same_object:
         for _ in grammars:
             ctx.dist(f"{sr}:same-object")
@@ -125,7 +126,8 @@ def stream_float(ctx, n, maxlen):
     tries = 0
     while len(gs) < n and tries < 60 * n:
         tries += 1
-        g = M.rand_grammar(ctx.rng, weights=[Fraction(1, 4), Fraction(1, 5), Fraction(1, 8), Fraction(1, 3), Fraction(1, 10)])
+        g = (M.rand_linked_unary_cycles(ctx.rng, boolean=False) if tries % 4 == 0
+             else M.rand_grammar(ctx.rng, weights=[Fraction(1, 4), Fraction(1, 5), Fraction(1, 8), Fraction(1, 3), Fraction(1, 10)]))
         if finitely_ambiguous(g):
             continue
         if M.total_float(g)[1]:
@@ -182,6 +184,7 @@ def run(ctx):
             gs.append(g)
     stream(ctx, gs, "frac", 3, 0)
     bg = [M.rand_grammar(ctx.rng, boolean=True, pnull=0.2, punary=0.25) for _ in range(nG)]
+    bg += [M.rand_linked_unary_cycles(ctx.rng) for _ in range(max(5, nG // 4))]     # several unary cycles feeding one another
     stream(ctx, bg, "bool", 3, 1)
     stream(ctx, gs[: max(6, nG // 3)], "frac", 3, 2, same_object=True)
     stream(ctx, bg[: max(6, nG // 3)], "bool", 3, 3, same_object=True)
